@@ -18,6 +18,8 @@ def run(ctx: Ctx, chk) -> None:
     chk.run_rule(error_propagates, ctx)
     chk.run_rule(tables.write_sync_rule, ctx)
     chk.run_rule(flush_total, ctx)
+    chk.run_rule(sb.buffer_once, ctx)
+    chk.run_rule(sb.buffer_plain, ctx)
 
 
 def write_then_forget(ctx: Ctx, chk, loss_only: bool = False) -> None:
